@@ -285,6 +285,49 @@ for flow in flows['flows']:
     if not same:
         fail('C ABI verification decides differently from the native API', dict(kind='decision', format=flow['format'], cls=flow['cls'], request=flow['request'], presentation=flow['presentation']), dict(native=flow['native'], ffi=v))
 
+# every (object list, id list) pair of the verify entry points, one list one member short, in an otherwise valid call
+def length_mismatch(flow):
+    global cases
+    made = []
+    def mk(kind, obj):
+        rc, h = from_json(kind, obj)
+        if rc != 0: raise RuntimeError(kind)
+        made.append(h); return h
+    try:
+        ctx = flow['ctx']
+        ph = mk('w3c_presentation' if flow['format'] == 'w3c' else 'presentation', flow['presentation'])
+        rh = mk('presentation_request', flow['request'])
+        objs = dict(schemas=[mk('schema', o) for _, o in ctx['schemas']], cred_defs=[mk('credential_definition', o) for _, o in ctx['cred_defs']],
+                    rev_reg_defs=[mk('revocation_registry_definition', o) for _, o in (ctx.get('rev_reg_defs') or [])])
+        ids = dict(schemas=[i for i, _ in ctx['schemas']], cred_defs=[i for i, _ in ctx['cred_defs']], rev_reg_defs=[i for i, _ in (ctx.get('rev_reg_defs') or [])])
+        lists = [mk('revocation_status_list', o) for o in (ctx.get('lists') or [])]
+        f = verify_w3c if flow['format'] == 'w3c' else verify_legacy
+        for pair in ('schemas', 'cred_defs', 'rev_reg_defs'):
+            if not objs[pair]:
+                continue
+            for short in ('objects', 'ids'):
+                o = {k: list(v) for k, v in objs.items()}; i = {k: list(v) for k, v in ids.items()}
+                (o if short == 'objects' else i)[pair].pop()
+                hl = {k: handlelist(v) for k, v in o.items()}; sl = {k: strlist(v) for k, v in i.items()}
+                ll, kk = handlelist(lists)
+                res = C.c_int8(-1)
+                rc = f(ph, rh, hl['schemas'][0], sl['schemas'][0], hl['cred_defs'][0], sl['cred_defs'][0], hl['rev_reg_defs'][0], sl['rev_reg_defs'][0], ll, FfiList(0, None), C.byref(res))
+                cases += 1; count('c17:length-mismatch')
+                if rc == 0:
+                    fail('mismatched list lengths accepted (returned Success)', dict(kind='length-mismatch', entry='verify_' + flow['format'], pair=pair, short=short), dict(rc=rc, result=res.value))
+                else:
+                    current_error()
+    except RuntimeError:
+        pass
+    finally:
+        for h in made: obj_free(h)
+
+
+for fmt in ('legacy', 'w3c'):
+    cand = [fl for fl in flows['flows'] if fl['format'] == fmt and fl['cls'] == 'honest' and (fl['ctx'].get('rev_reg_defs') or [])]
+    if cand:
+        length_mismatch(cand[0])
+
 # list length mismatch on the verify entry point: one schema, no id
 if flows['flows']:
     flow = dict(flows['flows'][0]); ctx = dict(flow['ctx']); flow['ctx'] = ctx
@@ -395,6 +438,23 @@ def ffi_flow():
         if rcv != 0 or r2.value != 1:
             fail('a presentation made through the C ABI from a prove list in another order does not verify (the native API takes a map: order cannot matter)', c, dict(rc=rcv, result=r2.value, error=current_error() if rcv else None))
         obj_free(p2.value)
+    # malformed prove items and list pairs in an otherwise valid create_presentation call
+    for what, pvl, sl_, sids_, cl_, cids_ in [
+        ('negative entry index', [CredProve(-1, b'a1', 0, 1), CredProve(0, b'p1', 1, 0)], sl, sids, cl, cids),
+        ('schema list without ids', [CredProve(0, b'a1', 0, 1), CredProve(0, b'p1', 1, 0)], sl, FfiList(0, None), cl, cids),
+        ('schema ids without list', [CredProve(0, b'a1', 0, 1), CredProve(0, b'p1', 1, 0)], FfiList(0, None), sids, cl, cids),
+        ('definition list without ids', [CredProve(0, b'a1', 0, 1), CredProve(0, b'p1', 1, 0)], sl, sids, cl, FfiList(0, None)),
+        ('definition ids without list', [CredProve(0, b'a1', 0, 1), CredProve(0, b'p1', 1, 0)], sl, sids, FfiList(0, None), cids),
+    ]:
+        pv = (CredProve * len(pvl))(*pvl)
+        tmp = H()
+        r = in_child(lambda: cp(prh, FfiList(1, C.cast(entries, C.c_void_p)), FfiList(len(pvl), C.cast(pv, C.c_void_p)), FfiList(0, None), FfiList(0, None), secret, sl_, sids_, cl_, cids_, C.byref(tmp)))
+        cases += 1; count('c17:malformed-in-valid-call')
+        c = dict(kind='malformed-in-valid-call', entry='anoncreds_create_presentation', what=what)
+        if r[0] == 'signal':
+            fail('a malformed argument in an otherwise valid call crashed the process', c, dict(signal=r[1]))
+        elif r[1] == 0:
+            fail('a malformed argument in an otherwise valid call was accepted (returned Success)', c, dict(rc=0))
     res = C.c_int8(-1)
     chk(verify_legacy(pres, prh, sl, sids, cl, cids, FfiList(0, None), FfiList(0, None), FfiList(0, None), FfiList(0, None), C.byref(res)), 'verify_presentation')
     out = dict(format='legacy', request=reqj, presentation=json.loads(to_json(pres.value)),
@@ -421,6 +481,193 @@ try:
         fail('material made through the C ABI is decided differently by the native API', dict(kind='ffi-flow-native'), dict(native=native))
 except RuntimeError as ex:
     fail('flow through the C ABI failed: ' + str(ex), dict(kind='ffi-flow'))
+
+# ------------------------------------------------------------------ 3b. revocation and W3C flows made entirely through the C ABI
+class CredRevInfo(C.Structure):
+    _fields_ = [('reg_def', C.c_size_t), ('reg_def_private', C.c_size_t), ('status_list', C.c_size_t), ('reg_idx', C.c_int64)]
+
+
+def native_verdicts(materials):
+    with tempfile.NamedTemporaryFile('w', suffix='.json', delete=False, dir=os.path.dirname(flows_path)) as tf:
+        json.dump(dict(flows=materials), tf); tmp = tf.name
+    outp = subprocess.run([vh, 'native_verify', tmp], capture_output=True, text=True).stdout.strip().split('\n')[-1]
+    os.unlink(tmp)
+    return json.loads(outp)
+
+
+def ffi_rev_flow():
+    """registry, status lists (both issuance modes), revocable credential, state, presentation with non-revocation proof, revoke, update"""
+    global cases
+    H = C.c_size_t
+    def chk(rc, what):
+        if rc != 0: raise RuntimeError(f'{what}: rc={rc} {current_error()}')
+    m = flows['rev_material']
+    rc, cd = from_json('credential_definition', m['cred_def']); chk(rc, 'cred_def')
+    rc, cdp = from_json('credential_definition_private', m['cred_def_private']); chk(rc, 'cred_def_private')
+    rc, kcp = from_json('key_correctness_proof', m['key_correctness_proof']); chk(rc, 'kcp')
+    rc, sch = from_json('schema', m['schema']); chk(rc, 'schema')
+    cid, sid, iss = m['cred_def_id'].encode(), m['schema_id'].encode(), m['issuer_id'].encode()
+    tails_dir = tempfile.mkdtemp(prefix='ffi-tails-', dir=os.path.dirname(flows_path))
+    rrd, rrdp = H(), H()
+    chk(fn('anoncreds_create_revocation_registry_def', [H, C.c_char_p, C.c_char_p, C.c_char_p, C.c_char_p, C.c_int64, C.c_char_p, C.POINTER(H), C.POINTER(H)])(
+        cd, cid, iss, b'ffi', b'CL_ACCUM', 5, tails_dir.encode(), C.byref(rrd), C.byref(rrdp)), 'create_revocation_registry_def')
+    rrdj = json.loads(to_json(rrd.value)); tails_path = rrdj['value']['tailsLocation']
+    rid = b'did:web:ffi/revreg'
+    mk_list = fn('anoncreds_create_revocation_status_list', [H, C.c_char_p, H, H, C.c_char_p, C.c_int8, C.c_int64, C.POINTER(H)])
+    # both issuance modes and the timestamp conventions, observed on the object
+    for by_default, ts, want_bits, want_ts in [(1, 10, 0, 10), (0, 10, 1, 10), (1, 0, None, None), (1, -5, None, None)]:
+        l = H(); chk(mk_list(cd, rid, rrd, rrdp, iss, by_default, ts, C.byref(l)), 'create_revocation_status_list')
+        lj = json.loads(to_json(l.value))
+        cases += 1; count('c17:revocation:status-list-made')
+        bits = lj.get('revocationList')
+        if want_bits is not None and (bits != [want_bits] * 5 or lj.get('timestamp') != want_ts):
+            fail('status list made through the C ABI is not the one the native API makes for these arguments', dict(kind='ffi-rev', op='create_revocation_status_list', issuance_by_default=by_default, timestamp=ts), dict(revocationList=bits, timestamp=lj.get('timestamp')))
+        if want_bits is None and 'timestamp' in lj and lj['timestamp'] is not None and ts < 0:
+            fail('a negative timestamp was stored', dict(kind='ffi-rev', op='create_revocation_status_list', timestamp=ts), dict(timestamp=lj.get('timestamp')))
+        if not (by_default == 1 and ts == 10):
+            obj_free(l.value)
+        else:
+            list0 = l
+    # issue credential 1 against list0
+    offer = H(); chk(fn('anoncreds_create_credential_offer', [C.c_char_p, C.c_char_p, H, C.POINTER(H)])(sid, cid, kcp, C.byref(offer)), 'create_credential_offer')
+    secret = flows['link_secret'].encode()
+    req, meta = H(), H()
+    chk(fn('anoncreds_create_credential_request', [C.c_char_p, C.c_char_p, H, C.c_char_p, C.c_char_p, H, C.POINTER(H), C.POINTER(H)])(
+        b'entropy', None, cd, secret, b'ls', offer, C.byref(req), C.byref(meta)), 'create_credential_request')
+    an = m['attr_names']; names, k0 = strlist(an); raws, k1 = strlist(['Alice' if a == 'name' else '25' if a == 'age' else 'x' for a in an])
+    rev = CredRevInfo(rrd.value, rrdp.value, list0.value, 1)
+    cred = H(); chk(fn('anoncreds_create_credential', [H, H, H, H, FfiList, FfiList, FfiList, C.POINTER(CredRevInfo), C.POINTER(H)])(
+        cd, cdp, offer, req, names, raws, FfiList(0, None), C.byref(rev), C.byref(cred)), 'create_credential (revocable)')
+    cred2 = H(); chk(fn('anoncreds_process_credential', [H, H, C.c_char_p, H, H, C.POINTER(H)])(cred, meta, secret, cd, rrd, C.byref(cred2)), 'process_credential (revocable)')
+    mk_state = fn('anoncreds_create_or_update_revocation_state', [H, H, C.c_int64, C.c_char_p, H, H, C.POINTER(H)])
+    st0 = H(); chk(mk_state(rrd, list0, 1, tails_path.encode(), 0, 0, C.byref(st0)), 'create_or_update_revocation_state')
+    # revoke index 2 (somebody else), then index 1; states by update and from scratch
+    upd = fn('anoncreds_update_revocation_status_list', [H, H, H, H, FfiList, FfiList, C.c_int64, C.POINTER(H)])
+    def i32list(xs):
+        arr = (C.c_int32 * len(xs))(*xs); return FfiList(len(xs), C.cast(arr, C.c_void_p)), arr
+    r2, kr2 = i32list([2]); list1 = H(); chk(upd(cd, rrd, rrdp, list0, FfiList(0, None), r2, 20, C.byref(list1)), 'update_revocation_status_list (revoke 2)')
+    r1, kr1 = i32list([1]); list2 = H(); chk(upd(cd, rrd, rrdp, list1, FfiList(0, None), r1, 30, C.byref(list2)), 'update_revocation_status_list (revoke 1)')
+    st1 = H(); chk(mk_state(rrd, list1, 1, tails_path.encode(), st0, list0, C.byref(st1)), 'update revocation state')
+    st1s = H(); chk(mk_state(rrd, list1, 1, tails_path.encode(), 0, 0, C.byref(st1s)), 'revocation state from scratch')
+    st2 = H(); chk(mk_state(rrd, list2, 1, tails_path.encode(), st1, list1, C.byref(st2)), 'update revocation state (own index revoked)')
+    for l, want in ((list1, [0, 0, 1, 0, 0]), (list2, [0, 1, 1, 0, 0])):
+        lj = json.loads(to_json(l.value)); cases += 1; count('c17:revocation:status-list-updated')
+        if lj.get('revocationList') != want:
+            fail('status list updated through the C ABI does not show the requested changes', dict(kind='ffi-rev', op='update_revocation_status_list'), dict(revocationList=lj.get('revocationList'), want=want))
+    nonce = C.c_char_p(); chk(fn('anoncreds_generate_nonce', [C.POINTER(C.c_char_p)])(C.byref(nonce)), 'generate_nonce')
+    reqj = {"nonce": nonce.value.decode(), "name": "r", "version": "1.0", "requested_attributes": {"a1": {"name": "name"}},
+            "requested_predicates": {"p1": {"name": "age", "p_type": ">=", "p_value": 18}}, "non_revoked": {"from": 5, "to": 40}}
+    rc, prh = from_json('presentation_request', reqj); chk(rc, 'presentation_request_from_json')
+    sl, k2 = handlelist([sch]); sids, k3 = strlist([m['schema_id']]); cl, k4 = handlelist([cd]); cids, k5 = strlist([m['cred_def_id']])
+    rl, k6 = handlelist([rrd.value]); rids, k7 = strlist([rid.decode()])
+    cp = fn('anoncreds_create_presentation', [H, FfiList, FfiList, FfiList, FfiList, C.c_char_p, FfiList, FfiList, FfiList, FfiList, C.POINTER(H)])
+    cpw = fn('anoncreds_create_w3c_presentation', [H, FfiList, FfiList, C.c_char_p, FfiList, FfiList, FfiList, FfiList, C.c_char_p, C.POINTER(H)])
+    w3cred = H(); chk(fn('anoncreds_credential_to_w3c', [H, C.c_char_p, C.c_char_p, C.POINTER(H)])(cred2, iss, None, C.byref(w3cred)), 'credential_to_w3c (revocable)')
+    proves = (CredProve * 2)(CredProve(0, b'a1', 0, 1), CredProve(0, b'p1', 1, 0))
+    materials, expected = [], []
+    for (st, ts, lst, want, cls) in [(st0, 10, list0, 1, 'valid:list0'), (st1, 20, list1, 1, 'valid:updated-state'), (st1s, 20, list1, 1, 'valid:scratch-state'), (st2, 30, list2, 0, 'revoked:list2'), (st0, 10, list2, None, 'stale-state-no-matching-list')]:
+        for fmt in ('legacy', 'w3c'):
+            ent = (CredEntry * 1)(CredEntry((cred2 if fmt == 'legacy' else w3cred).value, ts, st.value))
+            pres = H()
+            if fmt == 'legacy':
+                rc = cp(prh, FfiList(1, C.cast(ent, C.c_void_p)), FfiList(2, C.cast(proves, C.c_void_p)), FfiList(0, None), FfiList(0, None), secret, sl, sids, cl, cids, C.byref(pres))
+            else:
+                rc = cpw(prh, FfiList(1, C.cast(ent, C.c_void_p)), FfiList(2, C.cast(proves, C.c_void_p)), secret, sl, sids, cl, cids, None, C.byref(pres))
+            cases += 1; count(f'c17:revocation:{fmt}:{cls}')
+            if rc != 0:
+                fail('a presentation with a non-revocation proof could not be made through the C ABI', dict(kind='ffi-rev', format=fmt, cls=cls), dict(rc=rc, error=current_error()))
+                continue
+            ll, k8 = handlelist([lst.value])
+            res = C.c_int8(-1)
+            f = verify_legacy if fmt == 'legacy' else verify_w3c
+            rcv = f(pres, prh, sl, sids, cl, cids, rl, rids, ll, FfiList(0, None), C.byref(res))
+            got = res.value if rcv == 0 else None
+            if want is not None and got != want:
+                fail('revocation flow through the C ABI is decided wrongly', dict(kind='ffi-rev', format=fmt, cls=cls), dict(rc=rcv, result=got, want=want, error=current_error() if rcv else None))
+            materials.append(dict(format=fmt, request=reqj, presentation=json.loads(to_json(pres.value)), schemas=[[m['schema_id'], m['schema']]], cred_defs=[[m['cred_def_id'], m['cred_def']]],
+                                  rev_reg_defs=[[rid.decode(), rrdj]], lists=[json.loads(to_json(lst.value))]))
+            expected.append((fmt, cls, 'T' if got == 1 else 'F' if got == 0 else 'E'))
+            obj_free(pres.value)
+    native = native_verdicts(materials)
+    for (fmt, cls, v), nv in zip(expected, native):
+        cases += 1; count('c17:revocation:verified-natively')
+        if not (v == nv or (v in 'EF' and nv in 'EF')):
+            fail('revocation material made through the C ABI is decided differently by the native API', dict(kind='ffi-rev-native', format=fmt, cls=cls), dict(ffi=v, native=nv))
+    # conversions through the C ABI are inverse to each other on the legacy credential (deterministic)
+    back = H(); chk(fn('anoncreds_credential_from_w3c', [H, C.POINTER(H)])(w3cred, C.byref(back)), 'credential_from_w3c')
+    cases += 1; count('c17:deterministic:to_w3c-from_w3c')
+    if json.loads(to_json(back.value)) != json.loads(to_json(cred2.value)):
+        fail('credential_to_w3c followed by credential_from_w3c through the C ABI changes the credential', dict(kind='deterministic', op='to_w3c/from_w3c'), {})
+    import shutil; shutil.rmtree(tails_dir, ignore_errors=True)
+
+
+def ffi_w3c_flow():
+    """W3C issuance, processing, presentation and verification through the C ABI (non-revocable definition made through the C ABI)"""
+    global cases
+    H = C.c_size_t
+    def chk(rc, what):
+        if rc != 0: raise RuntimeError(f'{what}: rc={rc} {current_error()}')
+    names, k0 = strlist(['name', 'age'])
+    sh = H(); chk(fn('anoncreds_create_schema', [C.c_char_p, C.c_char_p, C.c_char_p, FfiList, C.POINTER(H)])(b'gvt', b'1.0', b'did:web:ffi', names, C.byref(sh)), 'create_schema')
+    cd, cdp, kcp = H(), H(), H()
+    chk(fn('anoncreds_create_credential_definition', [C.c_char_p, H, C.c_char_p, C.c_char_p, C.c_char_p, C.c_int8, C.POINTER(H), C.POINTER(H), C.POINTER(H)])(
+        b'did:web:ffi/schema', sh, b'tag', b'did:web:ffi', b'CL', 0, C.byref(cd), C.byref(cdp), C.byref(kcp)), 'create_credential_definition')
+    offer = H(); chk(fn('anoncreds_create_credential_offer', [C.c_char_p, C.c_char_p, H, C.POINTER(H)])(b'did:web:ffi/schema', b'did:web:ffi/cd', kcp, C.byref(offer)), 'create_credential_offer')
+    secret = flows['link_secret'].encode()
+    req, meta = H(), H()
+    chk(fn('anoncreds_create_credential_request', [C.c_char_p, C.c_char_p, H, C.c_char_p, C.c_char_p, H, C.POINTER(H), C.POINTER(H)])(
+        b'entropy', None, cd, secret, b'ls', offer, C.byref(req), C.byref(meta)), 'create_credential_request')
+    materials, expected = [], []
+    for ver in (None, b'1.1', b'2.0'):
+        raws, k1 = strlist(['Alice', '25'])
+        wc = H(); chk(fn('anoncreds_create_w3c_credential', [H, H, H, H, FfiList, FfiList, C.c_void_p, C.c_char_p, C.POINTER(H)])(
+            cd, cdp, offer, req, names, raws, None, ver, C.byref(wc)), 'create_w3c_credential')
+        wc2 = H(); chk(fn('anoncreds_process_w3c_credential', [H, H, C.c_char_p, H, H, C.POINTER(H)])(wc, meta, secret, cd, 0, C.byref(wc2)), 'process_w3c_credential')
+        wj = json.loads(to_json(wc2.value))
+        cases += 1; count('c17:w3c:credential-made')
+        if wj.get('credentialSubject') != {'name': 'Alice', 'age': 25}:
+            fail('W3C credential made through the C ABI has another subject than the native API gives for these raw values', dict(kind='ffi-w3c', op='create_w3c_credential'), dict(subject=wj.get('credentialSubject')))
+        nonce = C.c_char_p(); chk(fn('anoncreds_generate_nonce', [C.POINTER(C.c_char_p)])(C.byref(nonce)), 'generate_nonce')
+        reqj = {"nonce": nonce.value.decode(), "name": "r", "version": "1.0", "requested_attributes": {"a1": {"name": "name"}},
+                "requested_predicates": {"p1": {"name": "age", "p_type": ">=", "p_value": 18}}}
+        rc, prh = from_json('presentation_request', reqj); chk(rc, 'presentation_request_from_json')
+        sl, k2 = handlelist([sh.value]); sids, k3 = strlist(['did:web:ffi/schema']); cl, k4 = handlelist([cd.value]); cids, k5 = strlist(['did:web:ffi/cd'])
+        ent = (CredEntry * 1)(CredEntry(wc2.value, -1, 0)); proves = (CredProve * 2)(CredProve(0, b'a1', 0, 1), CredProve(0, b'p1', 1, 0))
+        pres = H()
+        chk(fn('anoncreds_create_w3c_presentation', [H, FfiList, FfiList, C.c_char_p, FfiList, FfiList, FfiList, FfiList, C.c_char_p, C.POINTER(H)])(
+            prh, FfiList(1, C.cast(ent, C.c_void_p)), FfiList(2, C.cast(proves, C.c_void_p)), secret, sl, sids, cl, cids, ver, C.byref(pres)), 'create_w3c_presentation')
+        res = C.c_int8(-1)
+        chk(verify_w3c(pres, prh, sl, sids, cl, cids, FfiList(0, None), FfiList(0, None), FfiList(0, None), FfiList(0, None), C.byref(res)), 'verify_w3c_presentation')
+        cases += 1; count('c17:w3c:flow')
+        if res.value != 1:
+            fail('honest W3C flow made through the C ABI does not verify through the C ABI', dict(kind='ffi-w3c', version=(ver or b'default').decode()), dict(result=res.value))
+        pj = json.loads(to_json(pres.value))
+        base = dict(format='w3c', request=reqj, schemas=[['did:web:ffi/schema', json.loads(to_json(sh.value))]], cred_defs=[['did:web:ffi/cd', json.loads(to_json(cd.value))]])
+        materials.append(dict(base, presentation=pj)); expected.append('T')
+        t = json.loads(json.dumps(pj)); t['verifiableCredential'][0]['credentialSubject']['name'] = 'Mallory'
+        materials.append(dict(base, presentation=t)); expected.append('notT')
+        # W3C -> legacy through the C ABI, presented in legacy form
+        lc = H(); chk(fn('anoncreds_credential_from_w3c', [H, C.POINTER(H)])(wc2, C.byref(lc)), 'credential_from_w3c')
+        entl = (CredEntry * 1)(CredEntry(lc.value, -1, 0)); pl = H()
+        chk(fn('anoncreds_create_presentation', [H, FfiList, FfiList, FfiList, FfiList, C.c_char_p, FfiList, FfiList, FfiList, FfiList, C.POINTER(H)])(
+            prh, FfiList(1, C.cast(entl, C.c_void_p)), FfiList(2, C.cast(proves, C.c_void_p)), FfiList(0, None), FfiList(0, None), secret, sl, sids, cl, cids, C.byref(pl)), 'create_presentation (converted)')
+        res = C.c_int8(-1)
+        chk(verify_legacy(pl, prh, sl, sids, cl, cids, FfiList(0, None), FfiList(0, None), FfiList(0, None), FfiList(0, None), C.byref(res)), 'verify_presentation (converted)')
+        cases += 1; count('c17:w3c:converted-presented-legacy')
+        if res.value != 1:
+            fail('a W3C credential converted through the C ABI does not present in legacy form', dict(kind='ffi-w3c', version=(ver or b'default').decode()), dict(result=res.value))
+    native = native_verdicts(materials)
+    for want, nv in zip(expected, native):
+        cases += 1; count('c17:w3c:verified-natively')
+        if (want == 'T') != (nv == 'T'):
+            fail('W3C material made through the C ABI is decided differently by the native API', dict(kind='ffi-w3c-native'), dict(want=want, native=nv))
+
+
+for name, flow_fn in (('revocation', ffi_rev_flow), ('w3c', ffi_w3c_flow)):
+    try:
+        flow_fn()
+    except RuntimeError as ex:
+        fail(f'{name} flow through the C ABI failed: ' + str(ex), dict(kind='ffi-' + name))
 
 # ------------------------------------------------------------------ 4. deterministic operations
 names, k = strlist(['name', 'age'])
